@@ -84,6 +84,10 @@ class YowNetworkLayer(YowLayer, ConnectionCallbacks):
         return True
 
     def createConnection(self):
+        if self.state != self.__class__.STATE_DISCONNECTED:
+            # also reached through the layer interface (application connect / reconnect, re-login after a key upload)
+            logger.warn("Not connecting: a connection exists (state=%s)" % self.state)
+            return
         self._disconnect_reason = None
         self._dispatcher = self.__create_dispatcher(self.getProp(self.PROP_DISPATCHER, self.DISPATCHER_DEFAULT))
         self.state = self.__class__.STATE_CONNECTING
